@@ -322,6 +322,12 @@ fn eval_builtin_incstr(
 
     let bigint_size = bigint.size.unwrap();
 
+    if bigint_size == 0 &&
+        query.args.len() < 2
+    {
+        return Ok(expr::Value::make_integer(bigint));
+    }
+
     let start = {
         if query.args.len() >= 2
         {
